@@ -372,6 +372,47 @@ example : RepPrintNA { rep := true } ∧
     RepPrintNA { rep := true, cap := true, esc := true, digit := true, word := true, minRep := 2, minLen := 3, noStart := true, noEnd := true } :=
   ⟨⟨rfl, by decide, rfl, rfl, rfl⟩, ⟨rfl, by decide, rfl, rfl, rfl⟩⟩
 
+/-- the segmentation into single code points meets the contract on every string of scalar values -/
+theorem segOK_singletons (lw : Str → Str) (w : Str) (hw : ∀ c ∈ w, Scalar c) :
+    Grexv.SegOK { lowerOf := lw, segOf := fun w => w.map fun c => [c] } w := by
+  have hflat : ∀ (u : Str), (u.map fun c => [c]).flatten = u := by
+    intro u; induction u with
+    | nil => rfl
+    | cons a r ih => simp only [List.map_cons, List.flatten_cons, ih, List.singleton_append]
+  refine ⟨?_, hflat w⟩
+  · intro p hp
+    simp only [List.mem_map] at hp
+    obtain ⟨c, hc, rfl⟩ := hp
+    exact ⟨by simp, fun x hx => by simp only [List.mem_singleton] at hx; subst hx; exact hw x hc⟩
+
+/-- **the hypotheses of `repetitions_sound` and of `repetitions_sound_verbose` are jointly satisfiable** on `["aaa", "b"]` with the
+segmentation into single code points: the settings, a successful run of `RegExp::from` (evaluated by the kernel), the segmentation
+contract and the bound on the length -/
+example :
+    let env : Env := { lowerOf := id, segOf := fun w => w.map fun c => [c] }
+    let ws := [strOf "aaa", strOf "b"]
+    (RepPrintNA { rep := true } ∧ ∃ st, regExpFrom { rep := true } env ws = .ok st) ∧
+    (RepVerbose { rep := true, verb := true } ∧ ∃ st, regExpFrom { rep := true, verb := true } env ws = .ok st) ∧
+    (∀ w ∈ ws, Grexv.SegOK env w) ∧ (∀ w ∈ ws, (clusterOfPieces (env.segOf w)).length ≤ 1000) := by
+  have ok : ∀ (cfg : Config), (match regExpFrom cfg { lowerOf := id, segOf := fun w => w.map fun c => [c] } [strOf "aaa", strOf "b"] with
+      | .ok _ => true | .error _ => false) = true →
+      ∃ st, regExpFrom cfg { lowerOf := id, segOf := fun w => w.map fun c => [c] } [strOf "aaa", strOf "b"] = .ok st := by
+    intro cfg h
+    cases hr : regExpFrom cfg { lowerOf := id, segOf := fun w => w.map fun c => [c] } [strOf "aaa", strOf "b"] with
+    | ok st => exact ⟨st, rfl⟩
+    | error e => rw [hr] at h; cases h
+  refine ⟨⟨⟨rfl, by decide, rfl, rfl, rfl⟩, ok _ (by decide +kernel)⟩, ⟨⟨rfl, by decide, rfl, rfl, rfl⟩, ok _ (by decide +kernel)⟩, ?_, ?_⟩
+  · intro w hw
+    apply segOK_singletons
+    intro c hc
+    have : c < 128 := by
+      simp only [List.mem_cons, List.mem_nil_iff, or_false] at hw
+      rcases hw with rfl | rfl <;> (revert hc; simp [strOf]; omega)
+    unfold Scalar; omega
+  · intro w hw
+    simp only [List.mem_cons, List.mem_nil_iff, or_false] at hw
+    rcases hw with rfl | rfl <;> decide +kernel
+
 /-- the input on which the unrepaired minimisation lost `ycc`, evaluated by the kernel on the model (the correspondence stream
 compares the same input with the implementation) -/
 example :
